@@ -144,7 +144,7 @@ var sharedAquahash = New(&Config{CachesInMem: 3, DatasetsInMem: 1, PowMode: Mode
 // NewSharedTesting creates a full sized aquahash PoW shared between all requesters running
 // in the same process.
 func NewSharedTesting() *Aquahash {
-	return &Aquahash{shared: sharedAquahash}
+	return &Aquahash{config: sharedAquahash.config, shared: sharedAquahash}
 }
 
 // Threads returns the number of mining threads currently enabled. This doesn't
